@@ -308,9 +308,11 @@ class Verdict:
             "known_findings_hit": sorted(self.known_hits),
             "repo_rev": repo_rev(),
         }
-        (EVIDENCE / f"{self.prop}.json").write_text(json.dumps(ev, indent=1, default=str))
+        evdir = EVIDENCE if re.match(r"^C\d+$", self.prop) else (VERIF / "evidence_growth")     # growth checks are not listed properties
+        evdir.mkdir(exist_ok=True)
+        (evdir / f"{self.prop}.json").write_text(json.dumps(ev, indent=1, default=str))
         status = "VIOLATED" if seen else "held"
-        print(f"[{self.prop}] {self.tier}: {status}; wall {wall:.1f}s; evidence {EVIDENCE / (self.prop + '.json')}")
+        print(f"[{self.prop}] {self.tier}: {status}; wall {wall:.1f}s; evidence {evdir / (self.prop + '.json')}")
         return 1 if seen else 0
 
 
